@@ -420,12 +420,19 @@ def rule_r5(ctx) -> List[R.Inst]:
     return insts
 
 
+def rule_dep(ctx):
+    """obligations inherited from shared code reached through the call graph (sa/props/deps.py)"""
+    from .deps import dep_insts
+    return dep_insts(ctx, "C20", [PATTERN + ".from_note_lists", PATTERN + ".group", COMBO + ".combinations"], skip_groups=())
+
+
 SPECS = [
     RuleSpec("C20.R1", rule_r1, 3, "A5", "Pattern.df is always offset-sorted with a positional index; positional unpack and record fields agree"),
     RuleSpec("C20.R2", rule_r2, 6, "A8", "skip grouped notes; the mask that marks is the mask that is appended; window shapes"),
     RuleSpec("C20.R3", rule_r3, 5, "A7", "chunks are consecutive groups of exactly `size`; full cartesian product; filters on their own fields"),
     RuleSpec("C20.R5", rule_r5, 5, "A7", "REPEAT option: shift range computed per base combo"),
     RuleSpec("C20.R4", rule_r4, 7, "A7", "chord filter tests row membership; exclude = negation; option flags distinct bits"),
+    RuleSpec("C20.D", rule_dep, 1, "M0", "rules of the shared code (timing engine, list classes, stacker) that the operations of this property reach"),
 ]
 
 META = dict(
